@@ -12,6 +12,7 @@ import (
 	"fmt"
 	"net/url"
 	"path"
+	"regexp"
 	"sort"
 	"strconv"
 	"strings"
@@ -47,6 +48,7 @@ type expCase struct {
 	Names   string    `json:"names"`   // name class: plain | special
 	Spell   string    `json:"spell"`   // spelling class: simple | varied
 	Cache   string    `json:"cache"`   // cache mode of single-element entries: none | fresh | preload | reuse
+	Site    string    `json:"site"`    // where the root lives: "" (local file) | http
 }
 
 type docObs struct {
@@ -91,6 +93,7 @@ type expObs struct {
 	Reps     int        `json:"reps"`
 	Elem     string     `json:"elem"` // single-element entries: pointer of the expanded element
 	Cache    string     `json:"cache"`
+	Site     string     `json:"site"`
 	Cached   []AURL     `json:"cached"`   // documents known to be in the supplied cache before the call
 	SameFull bool       `json:"samefull"` // SkipThenFull: bytes equal to the direct full expansion
 	DefSame  bool       `json:"defsame"`  // definitions section of the output equals the input's
@@ -102,7 +105,16 @@ type expObs struct {
 var cwdPrefix string // set when the child has chdir'ed: "<scratch>"
 
 func usesCwdRoot(entry string) bool {
-	return strings.HasPrefix(entry, "ExpandSchema:") || strings.HasSuffix(entry, "WithRoot") || strings.HasSuffix(entry, ":nobase")
+	return strings.HasPrefix(entry, "ExpandSchema:") || strings.HasSuffix(entry, "WithRoot") || strings.HasSuffix(entry, ":nobase") ||
+		strings.HasSuffix(entry, ":relbase")
+}
+
+// siteOf: scheme and authority of the root's site ("file://" + private prefix, or a remote host)
+func siteOf(site, prefix string) string {
+	if site == "http" {
+		return "http://r.example"
+	}
+	return "file://" + prefix
 }
 
 func rootLoc(entry string) (prefix, file string) {
@@ -112,10 +124,28 @@ func rootLoc(entry string) (prefix, file string) {
 	return "", "root.json"
 }
 
-func layoutURL(class string, d int, prefix, rootFile string) string {
+func layoutURL(class string, d int, prefix, rootFile, site string) string {
 	n := strconv.Itoa(d)
-	p := "file://" + prefix
+	p := siteOf(site, prefix)
 	switch class {
+	case "casefile":
+		// documents 1,2 (3,4 ...) have names that differ by letter case only
+		if d%2 == 1 {
+			return p + "/w/r/Bb" + strconv.Itoa((d+1)/2) + ".json"
+		}
+		return p + "/w/r/bb" + strconv.Itoa((d+1)/2) + ".json"
+	case "samepath":
+		// another site, the very path of the root document
+		return "http://h.example/w/r/" + rootFile
+	case "samepathq":
+		// the root's own location but for a query (a different document on a remote site)
+		if site == "http" {
+			return p + "/w/r/" + rootFile + "?v=" + n
+		}
+		return "http://h.example/w/r/" + rootFile + "?v=" + n
+	case "localfile":
+		// a local file whatever the root's site
+		return "file://" + prefix + "/w/f/b" + n + ".json"
 	case "sibling":
 		return p + "/w/r/b" + n + ".json"
 	case "subdir":
@@ -148,6 +178,16 @@ var specialNames = []string{"a/b", "t~x", "p%x", "s p", "{id}", "été", "q?x", 
 func nodeName(n int, class string, rot int) string {
 	if class == "special" {
 		return specialNames[(n+rot)%len(specialNames)] + strconv.Itoa(n)
+	}
+	if class == "casetwin" {
+		// all names differ from one another by letter case only: the bits of n pick the capitals
+		b := []byte("petname")
+		for k := 0; k < len(b); k++ {
+			if n&(1<<k) != 0 {
+				b[k] -= 32
+			}
+		}
+		return string(b)
 	}
 	return "N" + strconv.Itoa(n)
 }
@@ -207,6 +247,18 @@ func spellRef(fromURL, toURL string, toks []string, style int, varied bool) stri
 	if !varied {
 		style = 0
 	}
+	if fu.RawQuery != "" {
+		// The referring document's location carries a query.  RFC 3986 and the library (which lets a relative
+		// reference inherit the query of its base - pinned by the repository's normalizer tests) read a relative
+		// path differently here; only fragment-only and absolute spellings mean the same to both.
+		if same {
+			if frag == "" {
+				return "#"
+			}
+			return frag
+		}
+		return toURL + frag
+	}
 	if same {
 		switch style % 4 {
 		case 1:
@@ -225,6 +277,10 @@ func spellRef(fromURL, toURL string, toks []string, style int, varied bool) stri
 	}
 	if !sameSite {
 		return toURL + frag
+	}
+	if tu.Scheme == "file" && style%3 == 2 {
+		// the canonical location of a local file, carrying a query (irrelevant for local files)
+		return toURL + "?rev=2" + frag
 	}
 	rel := relPath(fu, tu)
 	switch style % 5 {
@@ -278,13 +334,13 @@ func concretise(c *expCase) (*concrete, error) {
 	}
 	cc := &concrete{urls: make([]string, nd), docs: make([]map[string]interface{}, nd), paths: make([][]string, n+1), nodeOf: make([]interface{}, n+1)}
 	prefix, rootFile := rootLoc(c.Entry)
-	cc.urls[0] = "file://" + prefix + "/w/r/" + rootFile
+	cc.urls[0] = siteOf(c.Site, prefix) + "/w/r/" + rootFile
 	for d := 1; d < nd; d++ {
 		class := "sibling"
 		if d-1 < len(c.Layout) {
 			class = c.Layout[d-1]
 		}
-		cc.urls[d] = layoutURL(class, d, prefix, rootFile)
+		cc.urls[d] = layoutURL(class, d, prefix, rootFile, c.Site)
 	}
 	cc.docs[0] = map[string]interface{}{
 		"swagger": "2.0",
@@ -509,7 +565,7 @@ var faultClasses = []string{"noptr", "nodoc", "string", "number", "bool", "array
 
 // oddTargets (-oddtargets): targets that exist but are not objects of the expected kind in a way
 // the error discipline (C08) says nothing about: JSON null, an empty object
-var oddTargetClasses = []string{"null", "emptyobj"}
+var oddTargetClasses = []string{"null", "emptyobj", "nulldoc"}
 
 func danglingRef(cc *concrete, c *expCase, i int) string {
 	a := c.Nodes[i-1]
@@ -524,6 +580,9 @@ func danglingRef(cc *concrete, c *expCase, i int) string {
 	switch fault {
 	case "nodoc":
 		return "missing" + strconv.Itoa(i) + ".json#/" + sec + "/X"
+	case "nulldoc":
+		// a document whose whole content is the JSON value null (served by the recording loader)
+		return "nulldoc" + strconv.Itoa(i) + ".json"
 	case "string", "number", "bool", "array", "null", "emptyobj":
 		return "#/x-bad-" + fault
 	case "casevar":
@@ -612,6 +671,8 @@ func isListKey(toks []string, k int) bool {
 	return false
 }
 
+var nullDocRe = regexp.MustCompile(`/nulldoc\d+\.json$`)
+
 type recLoader struct {
 	docs   map[string][]byte
 	refuse map[string]bool
@@ -630,6 +691,9 @@ func (l *recLoader) load(u string) (json.RawMessage, error) {
 		return nil, errors.New("loader: refused " + u)
 	}
 	b, ok := l.docs[u]
+	if !ok && nullDocRe.MatchString(u) {
+		b, ok = []byte("null"), true
+	}
 	if !ok {
 		l.ok = append(l.ok, false)
 		return nil, errors.New("loader: no doc " + u)
@@ -652,6 +716,7 @@ var expFlags struct {
 	oddTargets bool
 	allFaults  bool
 	decoys     bool
+	site       string
 }
 
 func init() {
@@ -669,6 +734,7 @@ func init() {
 			fs.BoolVar(&expFlags.decoys, "decoys", true, "every top-level name also exists, with other content, in the other documents")
 			fs.BoolVar(&expFlags.allFaults, "allfaults", false, "graphs with exactly one dangling ref are run once per fault class")
 			fs.BoolVar(&expFlags.oddTargets, "oddtargets", false, "dangling refs point at JSON null / an empty object instead (C04 only)")
+			fs.StringVar(&expFlags.site, "site", "", "site of the root document: empty (local file) or http")
 			fs.StringVar(&expFlags.ids, "ids", "", "comma list of id classes given (in rotation) to the structured schemas: abs,relfile,reldir,frag")
 		},
 		run:     expRun,
@@ -785,6 +851,22 @@ func cross(id int, nodes0 []absNode) []*expCase {
 	return out
 }
 
+// withFaults fixes the fault class of every dangling ref in the case record itself, so that a
+// recorded case replays identically whatever flags the replaying worker is given.
+func withFaults(nodes []absNode, rot int) []absNode {
+	out := append([]absNode(nil), nodes...)
+	for i := range out {
+		if out[i].T == "ref" && out[i].To == 0 && out[i].Fault == "" {
+			if expFlags.oddTargets {
+				out[i].Fault = oddTargetClasses[(rot+i+1)%len(oddTargetClasses)]
+			} else {
+				out[i].Fault = faultClasses[(rot+i+1)%len(faultClasses)]
+			}
+		}
+	}
+	return out
+}
+
 func cross1(id int, nodes []absNode) []*expCase {
 	var out []*expCase
 	for _, lay := range strings.Split(expFlags.layouts, ",") {
@@ -793,8 +875,8 @@ func cross1(id int, nodes []absNode) []*expCase {
 				rot, _ := strconv.Atoi(r)
 				for _, fsx0 := range crossTail() {
 					fsx, entry, cache := fsx0[0], fsx0[1], fsx0[2]
-					c := &expCase{Case: id, Nodes: withIDs(nodes, rot), Layout: strings.Split(lay, "+"), Rot: rot,
-						Entry: entry, Reps: expFlags.reps, Names: expFlags.names, Spell: expFlags.spell}
+					c := &expCase{Case: id, Nodes: withFaults(withIDs(nodes, rot), rot), Layout: strings.Split(lay, "+"), Rot: rot,
+						Entry: entry, Reps: expFlags.reps, Names: expFlags.names, Spell: expFlags.spell, Site: expFlags.site}
 					if strings.HasPrefix(cache, "preload:") {
 						c.Cache = "preload"
 						skipPre := false
@@ -968,6 +1050,6 @@ func expSlim(v interface{}) interface{} {
 		"docs": o.Docs, "nodes": nodes, "entries": o.Entries, "loads": o.Loads, "loadok": o.LoadOK,
 		"det": o.Det, "rootsame": o.RootSame, "optssame": o.OptsSame, "abstract": o.Abstract,
 		"failurl": o.FailURL, "preload": o.Preload, "collide": o.Collide, "events": o.Events,
-		"elem": o.Elem, "cache": o.Cache, "cached": o.Cached, "samefull": o.SameFull, "defsame": o.DefSame,
+		"elem": o.Elem, "cache": o.Cache, "site": o.Site, "cached": o.Cached, "samefull": o.SameFull, "defsame": o.DefSame,
 	}
 }
